@@ -14,13 +14,13 @@ MC_PNames == IF NPts >= 3 THEN {p1, p2s, blank} ELSE IF NPts = 2 THEN {p2s, blan
 MC_ANames == IF NPts >= 3 THEN {a1s, a2, blank} ELSE IF NPts = 2 THEN {a1s, blank} ELSE {a1s}
 MC_PRates == {FOfNat(100)}
 MC_ARates == {FOfNat(100), FOfNat(200)}
-MC_FrameKinds == {"conf", "padded", "ctorpad"}
+MC_FrameKinds == {"conf", "padded", "ctorpad", "dupnames"}
 MC_ColKinds == {"ok1"}
 MC_Tags == {1}
 MC_UserParams == << [g |-> gG1, p |-> [n |-> nA, d |-> <<100>>, l |-> 0, sets |-> <<[t |-> TCHAR, v |-> <<<<120, 121>>, <<122>>>>, dim |-> <<>>, scalar |-> 0]>>]] >>
 MC_LockNames == {}
 MC_CallerIds == {}
 MC_Files == <<>>
-Dump == PrintT(ToJson([path |-> hist, op |-> lastOp', out |-> lastOut', res |-> lastRes',
+Dump == ~Sampled(Len(hist)) \/ PrintT(ToJson([path |-> hist, op |-> lastOp', out |-> lastOut', res |-> lastRes',
                        post |-> [hdr |-> AbsHdr(obj'.hdr), frm |-> obj'.frm]]))
 =========================================================================
